@@ -243,7 +243,7 @@ func init() {
 							}
 							c := f.Ctx()
 							first := true
-							ast.Inspect(f.Body(), func(x ast.Node) bool {
+							core.InspectBody(f, func(x ast.Node) bool {
 								call, ok := x.(*ast.CallExpr)
 								if !ok || !composite.Has(core.Callee(c.Info, call)) {
 									return true
@@ -299,7 +299,7 @@ func init() {
 					c := f.Ctx()
 					addr := f.Param(0)
 					norm, raw := false, ""
-					ast.Inspect(f.Body(), func(x ast.Node) bool {
+					core.InspectBody(f, func(x ast.Node) bool {
 						call, ok := x.(*ast.CallExpr)
 						if ok && core.CallAtom([]string{"common/address.FormatAddrKey"}, core.IsObj("param:0"))(c, call) {
 							norm = true
@@ -372,7 +372,7 @@ func init() {
 					label := fmt.Sprintf("%s rejects from/to aliasing on the normalised account identity", fn)
 					c := f.Ctx()
 					found := false
-					ast.Inspect(f.Body(), func(n ast.Node) bool {
+					core.InspectBody(f, func(n ast.Node) bool {
 						switch e := n.(type) {
 						case *ast.BinaryExpr:
 							if op, ok := core.CmpAtom(c, e, ident(pa), ident(pb)); ok && (op == token.EQL || op == token.NEQ) {
